@@ -2,7 +2,7 @@
 import srvprops
 
 PROP = "C05"
-THEOREMS = ["C05_model_smoke"]
+THEOREMS = ["C05_model_smoke", "C05_views_agree_reachable", "C05_index_is_membership", "C05_no_empty_channel", "C05_disconnect_cleans_up", "C05_fresh_channel_defaults", "C05_refused_join_changes_nothing", "C05_invariant_side_condition_tight"]
 
 
 def run(tier, replay=None):
